@@ -15,9 +15,27 @@ NAMING = (".NAME", "EDIF.identifier", ".NS")
 
 def worker(case):
     probs = []
-    ad, n = _hier.prepare(case)
+    variant = case[2] if len(case) > 2 else None
+    ad, n = _hier.prepare(case, policy="EDIF" if variant in ("edif-identifiers", "edif-identifiers-taken") else None)
     from spydrnet.uniquify import uniquify
     from spydrnet.flatten import flatten
+
+    if variant in ("edif-identifiers", "edif-identifiers-taken"):
+        # what the EDIF reader hands over: the EDIF policy in force, every element carrying an identifier
+        for l in n.libraries:
+            l["EDIF.identifier"] = "ID_" + l.name
+            for d in l.definitions:
+                d["EDIF.identifier"] = "ID_" + d.name
+                for el in list(d.ports) + list(d.cables) + list(d.children):
+                    el["EDIF.identifier"] = "ID_" + el.name
+        if variant == "edif-identifiers-taken":
+            # ... and the top cell already uses identifiers of the form flatten generates
+            top = n.top_instance.reference
+            leafdef = next(d for l in n.libraries for d in l.definitions if elab.is_leaf_def(d) and d.ports)
+            for d in [top] + [d for l in n.libraries for d in l.definitions if d is not top and not elab.is_leaf_def(d)]:
+                for k in range(3):
+                    d.create_cable(name="spare_c%d" % k)["EDIF.identifier"] = "cable_sdn_flat_%d" % (k if d is top else k + 3)
+                    d.create_child(name="spare_x%d" % k, reference=leafdef)["EDIF.identifier"] = "instance_sdn_flat_%d" % (k if d is top else k + 3)
 
     key = _hier.key_of(case, n)
     tag = "%s:%s" % (case[0][0], case[2] if len(case) > 2 else case[0][2])
@@ -66,6 +84,9 @@ def cases(tier):
     for desc in design.family_hier(tier, variants=("plain",)):
         if desc[0] in ("K2-shared", "K8-bus", "K1-chain2"):
             out.append((desc, "asc", "late-ports"))
+        if desc[0] in ("K1-chain2", "K8-bus", "K5-chain3") and (tier == "thorough" or sum(desc[1]) % 4 == 0):
+            out.append((desc, "asc", "edif-identifiers"))
+            out.append((desc, "asc", "edif-identifiers-taken"))
     return out
 
 
